@@ -8,7 +8,7 @@ MUTANTS = [
  ('union-wrong-optional', 'expr', 'expression.rs', 'let mut result = if expr1.is_empty() {\n                    Some(Expression::new_repetition(\n                        expr2.clone(),', 'let mut result = if expr1.is_empty() {\n                    Some(Expression::new_repetition(\n                        expr1.clone(),', 'fail', 'union.'),
  ('union-class-or', 'expr', 'expression.rs', 'result.is_none() && expr1.is_single_codepoint() && expr2.is_single_codepoint()', 'result.is_none() && (expr1.is_single_codepoint() || expr2.is_single_codepoint())', 'fail', 'union.'),
  ('concat-merge-swapped', 'expr', 'expression.rs', 'GraphemeCluster::merge(graphemes_a, graphemes_first, config)', 'GraphemeCluster::merge(graphemes_first, graphemes_a, config)', 'fail', 'concatenate.'),
- ('concat-reorder-benign', 'expr', 'expression.rs', 'let expr1 = a.as_ref().unwrap();\n        let expr2 = b.as_ref().unwrap();', 'let expr2 = b.as_ref().unwrap();\n        let expr1 = a.as_ref().unwrap();', 'pass', ''),
+ ('concat-reorder-benign', 'expr', 'expression.rs', 'let expr1 = a.as_ref().unwrap();\n        let expr2 = b.as_ref().unwrap();', 'let expr2 = b.as_ref().unwrap();\n        let expr1 = a.as_ref().unwrap();', 'pass-kf', ''),
  ('rotate-pop', 'expr', 'regexp.rs', '} else if let Expression::Alternation(options, _, _, _) = expr {\n                options.rotate_right(1);', '} else if let Expression::Alternation(options, _, _, _) = expr {\n                options.pop();', 'fail', 'rotate.'),
  ('setter-wrong-field', 'builder', 'builder.rs', 'self.config.is_word_converted = true;', 'self.config.is_non_word_converted = true;', 'fail', 'with_conversion_of_words.effect'),
  ('threshold-no-check', 'builder', 'builder.rs', 'self.config.minimum_repetitions = quantity;', 'self.config.minimum_repetitions = quantity + 1;', 'fail', 'with_minimum_repetitions'),
@@ -113,7 +113,7 @@ MUTANTS = [
  ('escaper-dot-not-listed', 'escaper', 'grapheme.rs', 'const CHARS_TO_ESCAPE: [&str; 14] = [\n    "(", ")", "[", "]", "{", "}", "+", "*", "-", ".", "?", "|", "^", "$",\n];', 'const CHARS_TO_ESCAPE: [&str; 13] = [\n    "(", ")", "[", "]", "{", "}", "+", "*", "-", "?", "|", "^", "$",\n];', 'fail', 'escaper.every_metacharacter_is_listed'),
  ('escaper-backslash-after-character', 'escaper', 'grapheme.rs', 'character.replace(char_to_escape, &format!("{}{}", "\\\\", char_to_escape));', 'character.replace(char_to_escape, &format!("{}{}", char_to_escape, "\\\\"));', 'fail', 'escaper.round_prefixes_backslash'),
  ('escaper-tab-written-as-newline', 'escaper', 'grapheme.rs', ".replace('\\t', \"\\\\t\");", ".replace('\\t', \"\\\\n\");", 'fail', 'escaper.controls_single'),
- ('benign-concat-none-check-swapped', 'expr', 'expression.rs', 'if a.is_none() || b.is_none() {\n            return None;', 'if b.is_none() || a.is_none() {\n            return None;', 'pass', ''),
+ ('benign-concat-none-check-swapped', 'expr', 'expression.rs', 'if a.is_none() || b.is_none() {\n            return None;', 'if b.is_none() || a.is_none() {\n            return None;', 'pass-kf', ''),
  ('benign-display-caret-branches-swapped', 'render', 'regexp.rs', '        let caret = if self.config.is_start_anchor_disabled {\n            String::new()\n        } else {\n            Component::Caret(self.config.is_verbose_mode_enabled)\n                .to_repr(self.config.is_output_colorized)\n        };', '        let caret = if !self.config.is_start_anchor_disabled {\n            Component::Caret(self.config.is_verbose_mode_enabled)\n                .to_repr(self.config.is_output_colorized)\n        } else {\n            String::new()\n        };', 'pass', ''),
  ('benign-escape-condition-order', 'escape', 'grapheme.rs', "} else if use_surrogate_pairs && ('\\u{10000}'..='\\u{10ffff}').contains(&c) {", "} else if ('\\u{10000}'..='\\u{10ffff}').contains(&c) && use_surrogate_pairs {", 'pass', ''),
  ('benign-split-rule-operands-swapped', 'split', 'cluster.rs', "let contains_backslash = it.chars().count() >= 2 && it.contains('\\\\');", "let contains_backslash = it.contains('\\\\') && it.chars().count() >= 2;", 'pass', ''),
